@@ -42,6 +42,8 @@ var grammarLines = []string{
 	"||example.org^$dnsrewrite=NOERROR;MX;10", "||example.org^$dnsrewrite=NOERROR;MX;", "||example.org^$dnsrewrite=NOERROR;SVCB;1", "||example.org^$dnsrewrite=NOERROR;HTTPS;1 .",
 	"||example.org^$dnsrewrite=NOERROR;HTTPS;1 . alpn", "||example.org^$dnsrewrite=NOERROR;PTR;", "||example.org^$dnsrewrite=NOERROR;A;", "||example.org^$dnsrewrite=;;;",
 	"||example.org^$client='", "||example.org^$client=~\"", "||example.org^$client=''", "||example.org^$client='a", "||example.org^$client=|", "||example.org^$ctag=~",
+	// bytes that are not UTF-8 in a basic pattern, in a regular expression, in an option value, in a cosmetic rule
+	"||exa\xffmple.org^", "/ad\xfe", "\xff\xfe$domain=b.c", "/[\xff]+/", "||example.org^$domain=ex\xffample.com", "example.org##.ban\xffner", "0.0.0.0 ex\xffample.org",
 	// blank-only elements of a list-valued option, in the middle and at the ends
 	"||example.org^$dnstype=A| |AAAA", "||example.org^$dnstype= |A", "||example.org^$dnstype=~ ", "||example.org^$ctag=a| |b", "||example.org^$client=a| |b",
 	"||example.org^$domain=a.com| |b.com", "||example.org^$denyallow=a.com| ", "||example.org^$dnstype=A||AAAA", "||example.org^$domain=a.com||b.com",
